@@ -39,6 +39,9 @@ type vpConnScn struct {
 	early bool
 }
 
+// vpConnCfgMod: further configuration applied by the next vpConnInstance
+var vpConnCfgMod func(cfg *ElectionConfig)
+
 func vpConnInstance(H time.Duration, grace time.Duration, logAt map[string]bool) *vpConnScn {
 	s := &vpConnScn{H: H, lastD: -1}
 	s.G = grace
@@ -73,8 +76,16 @@ func vpConnInstance(H time.Duration, grace time.Duration, logAt map[string]bool)
 	if logAt != nil {
 		cfg.Logger = &vpYieldLogger{at: logAt}
 	}
+	if vpConnCfgMod != nil {
+		vpConnCfgMod(&cfg)
+		vpConnCfgMod = nil
+	}
 	s.e = vpMustNew(&vpConnProvider{kv: s.kv, conn: s.conn}, cfg)
 	s.cb = &vpCallbacks{}
+	if vpCbTemplate != nil {
+		s.cb = vpCbTemplate
+		vpCbTemplate = nil
+	}
 	s.cb.install(s.e)
 	_ = s.e.Start(vpRootCtx())
 	vpQuiesce()
@@ -328,4 +339,33 @@ func vpH_C11_T_grace_new_term() {
 	_ = s.e.Stop()
 	vpQuiesce()
 	vpAssert("C11.threads-end", vpThreadsAlive() == 0)
+}
+
+// vpH_C19_T_connection: the promotion callback blocks on its context. (a) disconnect, no reconnect: at grace
+// expiry the term ends and the context is cancelled; (b) disconnect, reconnect, successful verification: the
+// term goes on and the context stays live — until the stop, which cancels it.
+func vpH_C19_T_connection() {
+	H := time.Second
+	vpCbTemplate = &vpCallbacks{blockOnCtx: true}
+	s := vpConnInstance(H, 2*H, nil)
+	s.kv.opLeft = 40
+	reconnects := vpChoose("reconnects", 2) == 1
+	time.Sleep(300 * time.Millisecond)
+	s.notify(0)
+	if reconnects {
+		time.Sleep(500 * time.Millisecond)
+		s.notify(1)
+	}
+	time.Sleep(3 * H)
+	vpQuiesce()
+	vpCover("C19.connection")
+	vpAssert("harness.one-promotion", len(s.cb.ctxs) == 1)
+	if reconnects {
+		vpAssert("C19.live-while-term", s.e.IsLeader() && s.cb.ctxs[0].Err() == nil)
+	} else {
+		vpAssert("C19.cancelled-after-term", !s.e.IsLeader() && s.cb.ctxs[0].Err() != nil)
+	}
+	_ = s.e.Stop()
+	vpQuiesce()
+	vpAssert("C19.cancelled-after-term", s.cb.ctxs[0].Err() != nil)
 }
